@@ -55,6 +55,58 @@ FAMS = {"frame": (FRAME, FRAME_INVS, FRAME_PROPS, FRAME_T), "fifo": (FIFO, FIFO_
 NOTES_FINDINGS = os.path.join(ROOT, "notes", "C16_findings.json")
 
 
+# ============================================================================================ vacuity witnesses
+def _junk_ivs(name, cfg, iv):
+    """-> list of (producer index, True) for every producer that drives junk (valid = 0 with `last` set) in iv"""
+    if name == "frame":
+        return [0] if iv[0] == 0 and iv[3] == 1 else []
+    if name == "fifo":
+        return [0] if iv[0] == 0 and iv[2] == 1 else []
+    return [i for i in range(cfg["n"]) if iv[4 * i] == 0 and iv[4 * i + 2] == 1]
+
+
+def _ctx_k(name, ctx, i):
+    """beats already accepted of the packet producer i is sending, in the hint's picture of the environment"""
+    return ctx[0][i][2] if name == "route" else ctx[2]
+
+
+def witnesses(name, family, gl):
+    """Vacuity guard for the environment freedoms that sit behind a cfg flag (no verdict): over the edges of the
+    accepted product's implementation graphs (inputs = vectors TLC's Env asked for, NEED; source states annotated
+    with the environment contexts in which they are reached) count how often a producer drove junk (valid = 0, `last`
+    set) between packets and INSIDE a packet.  A DUT whose cfg grants the freedom but whose graph never shows it
+    makes the run a machinery failure."""
+    out = {}
+    for g in gl.duts:
+        cfg = g.cfg
+        if not cfg.get("junk"):
+            continue
+        w = {"junk_between_packets": 0, "junk_inside_packet": 0}
+        for s_, edges in enumerate(g.succ):
+            ctxs = [c for c in g.ctxs.get(s_, ())] or ([family.hint.init(cfg)] if s_ == 0 else [])
+            for key in edges:
+                iv = g.alphabet.get(key)
+                if iv is None:
+                    continue
+                who = _junk_ivs(name, cfg, iv)
+                if not who:
+                    continue
+                for c in ctxs:
+                    if not family.hint.allowed(cfg, c, iv):
+                        continue
+                    for i in who:
+                        w["junk_inside_packet" if _ctx_k(name, c, i) > 0 else "junk_between_packets"] += 1
+        need = ["junk_between_packets"]
+        if cfg["bubbles"] == 1 and cfg["maxlen"] >= 2:
+            need.append("junk_inside_packet")
+        zero = [k for k in need if not w[k]]
+        if zero:
+            raise MachineryError("vacuous run: %s grants junk while idle but the explored product never shows %s"
+                                 % (family.describe(g.spec), ", ".join(zero)))
+        out[family.describe(g.spec)] = w
+    return out
+
+
 def _pairs(specs):
     return [(s, fam.tla_cfg(s)) for s in specs]
 
@@ -332,6 +384,17 @@ def tmode_specs(tier):
     L.append({"fam": "route", "cls": "Arbiter", "n": 2, "m": 1, "dw": 64, "pw": 8, "maxlen": 12})
     L.append({"fam": "route", "cls": "Dispatcher", "n": 1, "m": 4, "dw": 32, "pw": 8, "maxlen": 6})
     L.append({"fam": "route", "cls": "Dispatcher", "n": 1, "m": 3, "dw": 64, "pw": 8, "maxlen": 6, "one_hot": True, "nbad": 2})
+    # (appended, so that the simulation seeds of the configurations above keep their meaning)
+    # unaligned Packetizer / round trip under the complete environment (pauses inside packets with junk, also a junk
+    # `last`, on the bus; one-beat packets): clean since the Packetizer loads its residue register on accepted beats only
+    for dw in widths:
+        if fam.geometry(dw, 31) != "aligned":
+            for cls in ("Packetizer", "RoundTrip"):
+                if tier == "thorough" or (cls == "Packetizer" and dw != 64):
+                    frame(cls, dw, 31, REPO_FIELDS, 1, **general)
+    # a layout without params (PacketFIFO then queues a dummy param per packet)
+    L.append({"fam": "fifo", "cls": "PacketFIFO", "dw": 32, "pw": 0, "depth": 8, "minlen": 1, "maxlen": 8, "credit": 8,
+              "env": "credit"})
     return L
 
 
@@ -443,8 +506,10 @@ def _lane_main(conn, prop, tier, seed, label, job, findings):
             family, invs, props, _ = FAMS[name]
             if prop == "C04":       # the stream handshake contract of the packet elements (see run_handshake)
                 invs = [i for i in invs if i in HANDSHAKE_INVS]
-            stats = run_batches(family, rep, batches, invs, props, log=log, heap="6g", **kw)
-            rep.add(duts_explored=len(stats), per_dut=stats)
+            wit = {}
+            stats = run_batches(family, rep, batches, invs, props, log=log, heap="6g",
+                                on_accept=lambda gl: wit.update(witnesses(name, family, gl)), **kw)
+            rep.add(duts_explored=len(stats), per_dut=stats, witnesses=wit)
         elif kind == "t":
             run_tmode(rep, tier, seed)
         elif kind == "canary":
@@ -584,8 +649,12 @@ def run(prop, report, tier, seed):
     report.assume("producers keep valid, payload and params steady until accepted and keep the params of a packet "
                   "constant; consumers drive ready freely; while valid = 0 the payload is a don't-care (driven 0 or junk)")
     report.assume("exhaustive G-mode at reduced parameters (data width 8/16/32 with position-tagged payload bytes, "
-                  "headers of 1..7 bytes with 1-2 fields, packets of 1..3 beats, FIFO depth 2..4, 1-4 masters/slaves); "
+                  "headers of 1..7 bytes with 1-2 fields (also the two halves <p>_lsb/<p>_msb of one param), packets of 1..3 beats, "
+                  "FIFO depth 2..4 with and without params, 1-4 masters/slaves); "
                   "realistic widths (32/64/128 bit, the repository test's 31-byte header) only sampled in T-mode")
+    report.assume("junk while a producer offers nothing = zeros or (flagged configurations) one fixed vector with all data "
+                  "bits, `last` and all param bits set, between and inside packets (random junk in T-mode); counted per DUT "
+                  "(coverage.witnesses), a flagged DUT that never shows it is a machinery failure")
     report.assume("Dispatcher: sel is part of the offer of a packet's first beat (steady until that beat is accepted), "
                   "free at all other times")
     report.assume("PacketFIFO progress: every packet fits the payload depth (a longer packet blocks by construction; canary)")
